@@ -442,6 +442,7 @@ package txmgr
 //@   modifies gmap("iterkey")
 //@   loop#1 invariant ret != nil && fresh(ret) && (forall qs_ string :: has(ret, qs_) ==> balOK(ret[qs_]))
 //@   loop#2 invariant ret != nil && fresh(ret) && (forall qs_ string :: has(ret, qs_) ==> balOK(ret[qs_]))
+//@   loop#2 invariant forall qs_ string :: has(ret, qs_) ==> before(ret[qs_], cred) && before(ret[qs_], cred.block)
 //@   loop#2 invariant cred != nil && fresh(cred) && allocated(cred) && cred.block != nil && fresh(cred.block) && allocated(cred.block) && nsUnspent != nil && nsCredits != nil && iter != nil
 //@   loop#2 step[C01] cred.block.Height <= syncHeight && has(ret, strOf(cred.scriptHash)) && amt(curBal(ret, cred).Spendable) != old(amt(ret[cur(strOf(cred.scriptHash))].Spendable)) ==> consensusSpendable(cred.maturity, cred.block.Height, syncHeight) && cred.flags.Class == ClassStandardUtxo && !poolSpent(txpool, cred)
 //@   loop#2 step[C01] cred.block.Height <= syncHeight && has(ret, strOf(cred.scriptHash)) && amt(curBal(ret, cred).WithdrawableStaking) != old(amt(ret[cur(strOf(cred.scriptHash))].WithdrawableStaking)) ==> consensusSpendable(cred.maturity, cred.block.Height, syncHeight) && cred.flags.Class == ClassStakingUtxo && !poolSpent(txpool, cred)
